@@ -14,6 +14,9 @@ CHECKS = {
  "C14": dict(cat="exploration", technique="differential runtime oracle: kernel-semantics u32 interpreter + netip/big-int evaluator over generated CIDRs, all prefix lengths",
      text="Every u32 classifier key set, derived gateway, route-table id and host veth name terway computes is compared at run time against an independent evaluator; all prefix lengths 0..32/0..128 are enumerated, base addresses and probes are corner cases + PRNG. Held = no disagreement on ~4M (quick) evaluations.",
      note="Trusts net/netip and math/big as the reference; IPv6 subnets inside ::ffff:0:0/96 are excluded (net.IP cannot represent them as IPv6).", ref="§2 C14"),
+ "C16": dict(cat="exploration", technique="token monitor on the real key generator/option builders + porcupine linearizability of concurrent issue/rollback histories + wire-level monitor on real OpenAPI over a fault-injecting HTTP cloud; race detector",
+     text="Fail/retry scripts with options rebuilt from fresh maps (so Go's random map order is exercised), concurrent issue/rollback histories checked against a token-pool model per parameter set, and end-to-end runs of the real client.OpenAPI (ECS + EFLO SDK clients on a simulated HTTP cloud that implements ClientToken idempotency and injects before/after-effect faults): all wire attempts of one logical operation must carry one token and the cloud must end with one resource.",
+     note="Cloud is simulated at the HTTP transport; SDK auto-retry disabled; a retrying caller is assumed to rebuild equal option values.", ref="§2 C16"),
 }
 NOT_YET = {}
 
